@@ -237,3 +237,17 @@ Theorem C01_simops_ops_source_nonvacuous :
   List.length (build_ops KV.Proofs.SimOpsSrcProofs.ex_src_net false) = 7 /\
   option_map (@List.length _) (simops_ops_src KV.Proofs.SimOpsSrcProofs.ex_src_net (a_ctrl_norm None 9) true) = Some 5.
 Proof. exact KV.Proofs.SimOpsSrcProofs.ops_source_example. Qed.
+
+(** the op-building loop of Gen/SimOpsSrc.v runs over `circuit.topological_order()` (and reads `circuit.s_nodes`), which its translator takes
+    from the models [topo_order] / [s_nodes]; Gen/TraversalsSrc.v (translate/gen_traversals.py) translates these two functions of
+    circuit.py themselves, and Proofs/TraversalsSrcProofs.v proves them equal to the models (C17_traversals_source_is_model).  So the
+    list the translated scheduler iterates over IS what the translated generator returns: the whole op list is tied to the source text.
+    [u32_ok]: every node has fewer than 2^32 connected input pins (visit_count is a numpy uint32 array). *)
+From KV Require Model.TraversalsSrcLib Gen.TraversalsSrc Proofs.SimOpsTopoSrc.
+Theorem C01_simops_ops_source_uses_translated_order : forall c given strip fuel,
+  wf_netlist c -> KV.Model.TraversalsSrcLib.u32_ok c -> List.length (c_nodes c) < fuel ->
+  let actrl := a_ctrl_norm given (List.length (c_lines c) + 3) in
+  exists order, KV.Gen.TraversalsSrc.topological_order_src c fuel = Some order /\ order = topo_order c /\
+    simops_ops_src c actrl strip = Some (map (row_of_sop actrl) (build_ops c strip)) /\
+    KV.Gen.TraversalsSrc.s_nodes_src c = Some (s_nodes c).
+Proof. exact KV.Proofs.SimOpsTopoSrc.simops_ops_source_uses_translated_order. Qed.
